@@ -73,6 +73,9 @@ def properties_limits(g):
     # shape of the bound in properties_cbor
     g.find(ins, r"\.saturating_mul\(MAX_PROPERTIES_COMPRESSION_RATIO\)\s*\.min\(MAX_COMPRESSED_PROPERTIES_SIZE\)", "properties_cbor bound")
     g.find(ins, r"if value\.len\(\) \+ n > max \{\s*return None;", "properties_cbor loop guard")
+    # encoder side uses the same ratio bound as the decoder (fixed: was the rounded-down quotient)
+    g.find(ins, r"len <= compressed\.len\(\)\.saturating_mul\(MAX_PROPERTIES_COMPRESSION_RATIO\)", "compress_properties ratio check")
+    g.find(ins, r"len <= MAX_COMPRESSED_PROPERTIES_SIZE,", "compress_properties size check")
     # cbor map keys of the derive-encoded structs: n(k) per field, in declaration order
     p = "src/properties.rs"
     for struct, fields in (("Attributes", ["title", "traits"]), ("Item", ["id", "attributes", "index"]),
